@@ -261,3 +261,263 @@ if __name__ == "__main__":
         print(st, detail)
         if st != "untranslatable":
             print(open(GEN).read())
+
+
+# ============================================================================= typed (Rat / Int / Bool / String) translation
+class SymT:
+    """Symbolic execution with a tiny type system (int, rat, bool, str, num = untyped numeral) for the exact-arithmetic
+    functions of coordinates.py.  Values are (lean text, type)."""
+
+    def __init__(self, ignore_calls=()):
+        self.env = {}
+        self.guards = []          # conditions under which the function raises ValueError (in program order)
+        self.ignore_calls = set(ignore_calls)
+
+    @staticmethod
+    def cast(v, want):
+        t, ty = v
+        if ty == want or ty == "num":
+            return t
+        if ty == "int" and want == "rat":
+            return f"(({t} : Int) : Rat)"
+        raise Untranslatable(f"cannot use {ty} as {want}: {t}")
+
+    def expr(self, n):
+        if isinstance(n, ast.Name):
+            if n.id in self.env:
+                return self.env[n.id]
+            _fail(n, "unbound name")
+        if isinstance(n, ast.Constant):
+            if isinstance(n.value, bool):
+                return ("true" if n.value else "false", "bool")
+            if isinstance(n.value, int):
+                return (str(n.value), "num")
+            if isinstance(n.value, str):
+                return (json_str(n.value), "str")
+            _fail(n, "unsupported literal")
+        if isinstance(n, ast.UnaryOp) and isinstance(n.op, ast.USub):
+            t, ty = self.expr(n.operand)
+            return (f"(-{t})", ty)
+        if isinstance(n, ast.BinOp):
+            a, b = self.expr(n.left), self.expr(n.right)
+            if isinstance(n.op, ast.Mod):
+                return (f"(pyMod {self.cast(a, 'rat')} {self.cast(b, 'rat')})", "rat")
+            op = {ast.Add: "+", ast.Sub: "-", ast.Mult: "*", ast.Div: "/"}.get(type(n.op))
+            if op is None:
+                _fail(n, "unsupported operator")
+            if isinstance(n.op, ast.Div) or "rat" in (a[1], b[1]):
+                return (f"({self.cast(a, 'rat')} {op} {self.cast(b, 'rat')})", "rat")
+            ty = "int" if "int" in (a[1], b[1]) else "num"
+            return (f"({a[0]} {op} {b[0]})", ty)
+        if isinstance(n, ast.Call):
+            f = n.func
+            if isinstance(f, ast.Name) and f.id == "abs" and len(n.args) == 1:
+                return (f"(ratAbs {self.cast(self.expr(n.args[0]), 'rat')})", "rat")
+            if isinstance(f, ast.Name) and f.id == "int" and len(n.args) == 1 and isinstance(n.args[0], ast.Call) \
+                    and isinstance(n.args[0].func, ast.Name) and n.args[0].func.id == "round":
+                return (f"(roundHalfEven {self.cast(self.expr(n.args[0].args[0]), 'rat')})", "int")
+            if isinstance(f, ast.Attribute) and isinstance(f.value, ast.Name) and f.value.id == "np" and f.attr == "allclose" and len(n.args) == 2:
+                return (f"(allclose1 {self.cast(self.expr(n.args[0]), 'rat')} {self.cast(self.expr(n.args[1]), 'rat')})", "bool")
+            _fail(n, "unsupported call")
+        if isinstance(n, ast.Subscript) and isinstance(n.value, ast.Name) and isinstance(n.slice, ast.Constant):
+            key = f"{n.value.id}[{n.slice.value}]"
+            if key in self.env:
+                return self.env[key]
+        _fail(n, "unsupported expression")
+
+    def cond(self, n):
+        if isinstance(n, ast.Name):
+            t, ty = self.expr(n)
+            if ty == "bool":
+                return f"{t} = true"
+        if isinstance(n, ast.Compare) and len(n.ops) == 1:
+            a = self.expr(n.left)
+            op = n.ops[0]
+            if isinstance(op, (ast.NotIn, ast.In)) and isinstance(n.comparators[0], (ast.List, ast.Tuple)):
+                items = "[" + ", ".join(self.expr(e)[0] for e in n.comparators[0].elts) + "]"
+                c = f"{items}.contains {a[0]} = true"
+                return f"¬ ({c})" if isinstance(op, ast.NotIn) else c
+            b = self.expr(n.comparators[0])
+            if a[1] == "str" or b[1] == "str":
+                if isinstance(op, ast.Eq):
+                    return f"{a[0]} = {b[0]}"
+                _fail(n, "unsupported string comparison")
+            sym = {ast.Gt: ">", ast.Lt: "<", ast.GtE: "≥", ast.LtE: "≤", ast.Eq: "="}.get(type(op))
+            if sym is None:
+                _fail(n, "unsupported comparison")
+            want = "rat" if "rat" in (a[1], b[1]) else ("int" if "int" in (a[1], b[1]) else "rat")
+            return f"{self.cast(a, want)} {sym} {self.cast(b, want)}"
+        _fail(n, "unsupported condition")
+
+    def assign_names(self, targets, values):
+        for t, v in zip(targets, values):
+            if not isinstance(t, ast.Name):
+                _fail(t, "unsupported target")
+            self.env[t.id] = v
+
+    def run(self, body):
+        for st in body:
+            if isinstance(st, ast.Expr) and isinstance(st.value, ast.Constant):
+                continue
+            if isinstance(st, ast.Expr) and isinstance(st.value, ast.Call):
+                f = st.value.func
+                name = f.id if isinstance(f, ast.Name) else getattr(f, "attr", None)
+                if name in self.ignore_calls:
+                    continue
+                _fail(st, "unsupported call statement")
+            if isinstance(st, ast.Assign) and len(st.targets) == 1:
+                t, v = st.targets[0], st.value
+                if isinstance(t, ast.Tuple):
+                    if isinstance(v, ast.Tuple) and len(v.elts) == len(t.elts):
+                        self.assign_names(t.elts, [self.expr(e) for e in v.elts])
+                    elif isinstance(v, ast.Name) or (isinstance(v, ast.Subscript) and isinstance(v.value, ast.Name) and isinstance(v.slice, ast.Slice)):
+                        base = v.id if isinstance(v, ast.Name) else v.value.id
+                        self.assign_names(t.elts, [self.env[f"{base}[{k}]"] for k in range(len(t.elts))])
+                    else:
+                        _fail(st, "unsupported tuple assignment")
+                elif isinstance(t, ast.Name) and isinstance(v, ast.Tuple):
+                    for k, e in enumerate(v.elts):
+                        self.env[f"{t.id}[{k}]"] = self.expr(e)
+                    self.env[t.id] = ("<tuple>", "tuple:" + str(len(v.elts)))
+                elif isinstance(t, ast.Name):
+                    self.env[t.id] = self.expr(v)
+                else:
+                    _fail(st, "unsupported assignment")
+            elif isinstance(st, ast.AugAssign) and isinstance(st.target, ast.Name) and isinstance(st.op, ast.Add):
+                a, b = self.env[st.target.id], self.expr(st.value)
+                ty = "rat" if "rat" in (a[1], b[1]) else a[1]
+                self.env[st.target.id] = (f"({self.cast(a, ty)} + {self.cast(b, ty)})", ty)
+            elif isinstance(st, ast.If):
+                if len(st.body) == 1 and isinstance(st.body[0], ast.Raise) and not st.orelse:
+                    self.guards.append(self.cond(st.test))
+                    continue
+                if isinstance(st.test, ast.Call) and isinstance(st.test.func, ast.Attribute) and st.test.func.attr == "isscalar":
+                    continue      # Python-level argument normalisation (scalar -> pair): both forms reach the same body
+                c = self.cond(st.test)
+                a, b = SymT(self.ignore_calls), SymT(self.ignore_calls)
+                a.env, b.env = dict(self.env), dict(self.env)
+                if a.run(st.body) is not None or b.run(st.orelse) is not None or a.guards or b.guards:
+                    _fail(st, "return/raise inside a branch")
+                for k in set(a.env) | set(b.env):
+                    if a.env.get(k) != b.env.get(k):
+                        va, vb = a.env.get(k), b.env.get(k)
+                        if va is None or vb is None:
+                            _fail(st, f"name {k} assigned in one branch only")
+                        ty = va[1] if va[1] == vb[1] else ("rat" if "rat" in (va[1], vb[1]) else ("int" if "int" in (va[1], vb[1]) else va[1]))
+                        if ty in ("rat", "int"):
+                            self.env[k] = (f"(if {c} then {self.cast(va, ty)} else {self.cast(vb, ty)})", ty)
+                        else:
+                            self.env[k] = (f"(if {c} then {va[0]} else {vb[0]})", ty)
+            elif isinstance(st, ast.Return):
+                v = st.value
+                if isinstance(v, ast.Name) and self.env.get(v.id, ("", ""))[1].startswith("tuple:"):
+                    n = int(self.env[v.id][1].split(":")[1])
+                    return [self.env[f"{v.id}[{k}]"] for k in range(n)]
+                elts = v.elts if isinstance(v, ast.Tuple) else [v]
+                return [self.expr(e) for e in elts]
+            else:
+                _fail(st, "unsupported statement")
+        return None
+
+
+def json_str(s):
+    import json
+    return json.dumps(s)
+
+
+def translate_typed(path, name, lean_name, params, rettypes, ignore_calls=(), stop_after=None):
+    """params: list of (python name or 'name[k]', lean name, type).  rettypes: list of lean types of the returned tuple.
+    stop_after: translate only the statements up to and including the first one that assigns this name last (prefix of the body),
+    returning the names listed in rettypes as (python name, type) pairs instead of the function's own return."""
+    src = open(os.path.join(REPO, path)).read()
+    tree = ast.parse(src)
+    fn = find_func(tree, name)
+    s = SymT(ignore_calls)
+    for py, lean, ty in params:
+        s.env[py] = (lean, ty)
+    body = fn.body
+    if stop_after is not None:
+        cut = None
+        for i, st in enumerate(body):
+            if isinstance(st, ast.Assign) and any(isinstance(t, ast.Name) and t.id == stop_after for t in st.targets):
+                cut = i
+                break
+        if cut is None:
+            raise Untranslatable(f"{name}: marker statement assigning {stop_after} not found")
+        body = body[:cut]
+        outs_ = s.run(body)
+        if outs_ is not None:
+            raise Untranslatable(f"{name}: unexpected return before {stop_after}")
+        outs = [s.env[py] for py, _ in rettypes]
+        rts = [ty for _, ty in rettypes]
+    else:
+        outs = s.run(body)
+        rts = rettypes
+    if outs is None or len(outs) != len(rts):
+        raise Untranslatable(f"{name}: expected {len(rts)} returned value(s)")
+    lean_ty = {"rat": "Rat", "int": "Int", "bool": "Bool", "str": "String"}
+    vals = ", ".join(SymT.cast(o, t) if t in ("rat", "int") else o[0] for o, t in zip(outs, rts))
+    rtype = " × ".join(lean_ty[t] for t in rts)
+    seen, args = set(), []
+    for _, lean, ty in params:
+        if lean not in seen:
+            seen.add(lean)
+            args.append(f"({lean} : {lean_ty[ty]})")
+    seg = ast.get_source_segment(src, fn)
+    sha = hashlib.sha256(seg.encode()).hexdigest()[:16]
+    head = f"/-- translated from {path}:{fn.lineno}-{fn.end_lineno} ({name}), sha256 {sha} -/\n"
+    if s.guards:
+        g = " ∨ ".join(f"({c})" for c in s.guards)
+        return head + f"def {lean_name} {' '.join(args)} : Except Err ({rtype}) :=\n  if {g} then .error .valueError else .ok ({vals})\n"
+    return head + f"def {lean_name} {' '.join(args)} : {rtype} :=\n  ({vals})\n"
+
+
+HEADER_COORDS = """/-
+  GENERATED by harness/py2lean.py from the source text of /repo on every check run — do not edit.
+  Exact-arithmetic functions of coordinates.py; Props/C07, C13, C17 prove them equal to the hand-written model.
+-/
+import VerdeModel.Model.Coords
+namespace Verde.Gen
+open Verde
+
+"""
+GEN_COORDS = os.path.join(VERIF, "lean", "VerdeModel", "Gen", "Coords.lean")
+SNAP_COORDS = os.path.join(VERIF, "lean", "VerdeModel", "GenSnapshot", "Coords.lean.txt")
+
+
+def generate_coords():
+    parts = [
+        translate_typed("verde/coordinates.py", "spacing_to_size", "spacingToSize",
+                        [("start", "start", "rat"), ("stop", "stop", "rat"), ("spacing", "spacing", "rat"), ("adjust", "adjust", "str")],
+                        ["int", "rat"]),
+        translate_typed("verde/coordinates.py", "pad_region", "padRegion",
+                        [("region[0]", "w", "rat"), ("region[1]", "e", "rat"), ("region[2]", "s", "rat"), ("region[3]", "n", "rat"),
+                         ("pad[0]", "padN", "rat"), ("pad[1]", "padE", "rat")], ["rat", "rat", "rat", "rat"]),
+        translate_typed("verde/coordinates.py", "longitude_continuity", "lonRegion",
+                        [("region[0]", "w", "rat"), ("region[1]", "e", "rat"), ("region[2]", "s", "rat"), ("region[3]", "n", "rat")],
+                        [("interval_360", "bool"), ("w", "rat"), ("e", "rat")], ignore_calls=("_check_geographic_region",),
+                        stop_after="region"),
+    ]
+    return HEADER_COORDS + "\n".join(parts) + "\nend Verde.Gen\n"
+
+
+def _regen(gen_fn, gen_path, snap_path, write=True):
+    os.makedirs(os.path.dirname(gen_path), exist_ok=True)
+    try:
+        text = gen_fn()
+    except (Untranslatable, SyntaxError, OSError, KeyError) as exc:
+        if write and os.path.exists(snap_path):
+            cur = open(gen_path).read() if os.path.exists(gen_path) else None
+            snap = open(snap_path).read()
+            if cur != snap:
+                open(gen_path, "w").write(snap)
+        return "untranslatable", repr(exc)[:300]
+    snap = open(snap_path).read() if os.path.exists(snap_path) else None
+    cur = open(gen_path).read() if os.path.exists(gen_path) else None
+    if write and cur != text:
+        open(gen_path, "w").write(text)
+    return ("ok" if text == snap else "changed"), ""
+
+
+def main_coords(write=True):
+    return _regen(generate_coords, GEN_COORDS, SNAP_COORDS, write)
